@@ -1051,4 +1051,28 @@ example : session pyInt true true
     = [.choice ⟨.value (.one "b".toList), 2, 1, 2⟩, .confirm ⟨.answer true, 1, 1⟩,
        .choice ⟨.value (.one "a".toList), 1, 0, 1⟩] := by decide +kernel
 
+/-! ## Non-vacuity of the theorems added in rounds 8-9 (hypothesis audit) -/
+
+section AuditR9
+open Clikit Clikit.Question
+
+/-- `question_ignores_later_lines`, both hypotheses discharged: the choice question answered by the line `1` is the same
+dialogue when `yes` (the answer to the NEXT question) already stands behind it and the input goes on -/
+example : askQ pyInt true false (.choice abc false none none) (["1".toList] ++ ["yes".toList]) =
+    askQ pyInt true true (.choice abc false none none) ["1".toList] :=
+  question_ignores_later_lines pyInt true true false _ ["1".toList] ["yes".toList] (by decide +kernel) (by decide +kernel)
+
+/-- `session_append_commutes`: appending `yes` before or after that question gives the same session -/
+example : session pyInt true true [.append ["yes".toList], .ask (.choice abc false none none), .ask (.confirm true [['y']] false)]
+      ["1".toList] =
+    session pyInt true true [.ask (.choice abc false none none), .append ["yes".toList], .ask (.confirm true [['y']] false)]
+      ["1".toList] :=
+  session_append_commutes pyInt true true _ _ _ _ (by decide +kernel) (by decide +kernel)
+
+/-- the hypotheses exclude a question that is still waiting when the lines end (two invalid lines, unlimited attempts,
+input not at its end): there a later line does matter -/
+example : (askQ pyInt true false (.choice abc false none none) [zzz]).pending = true := by decide +kernel
+
+end AuditR9
+
 end Clikit.Props.C18
